@@ -10,6 +10,8 @@
    Strings are byte lists ([list Z]); only ASCII case mapping is modelled (tags and prefixes are ASCII). *)
 From Coq Require Import List ZArith Bool String Ascii.
 Import ListNotations.
+From GU Require Export C15.Facts.
+From GU Require Import C15.Gen.
 Local Open Scope Z_scope.
 
 Definition str := list Z.
@@ -151,41 +153,94 @@ Fixpoint leaves (pre : str) (s : schema) : list (str * (ty * aval)) :=
          end) fs
   end.
 
-(* ---------- variants of the code ---------- *)
-(* The model follows the code AS REPAIRED ([fixed]); the three repairs can be switched off to state what was wrong before:
-   v_after_file  linkFlagKeysToStructureKeys runs after the configuration file has been merged (before: on the defaults only)
-   v_strip       linkFlagKeysToStructureKeys derives the flag key of a structure key with generateEnvVarConfigKeys, which strips
-                 the environment prefix when the key starts with it (repaired: generateEnvVarConfigKey, separators only)
-   v_empty_sep   with an empty prefix cleanseEnvVar / DetermineConfigurationEnvironmentVariables still emit the separator ("_PORT") *)
-Record variant := mkV { v_after_file : bool; v_strip : bool; v_empty_sep : bool }.
-Definition fixed : variant := mkV true false false.
-Definition original : variant := mkV false true true.
+(* ---------- the facts the model is parameterised by ---------- *)
+(* [expected]: the facts of the code AS REPAIRED, written by hand; [Gen.gen_facts] is what the translator reads off the
+   source on every run.  Theorems are stated for gen_facts and proved for every record satisfying the conditions they need. *)
+Definition expected_steps : list step :=
+  [StDecodeDefaults; StMergeDefaults; StDotEnv; StEnvOptions; StMergeFile; StLink; StUnmarshal; StValidate].
+Definition expected_lf : lfacts := mkLF expected_steps false true true false true true true.
+Definition expected_flagprefix : str := Eval compute in str_of "uniqueprefixforprivateflagbindingkeys123".
+Definition expected_kf : kfacts :=
+  mkKF [(DOT, USC)] true true true true (Some USC) true expected_flagprefix DOT (USC, DOT) USC (DOT, USC) true true.
+Definition expected_nf : nfacts := mkNF true true USC true USC true.
+Definition expected_vf : vfacts := mkVF true SkipContinue true true true true USC (DASH, USC) true true.
+Definition expected : facts := mkFacts expected_lf expected_kf expected_nf expected_vf.
+Definition fixed : facts := expected.
 
-(* ---------- key / environment-variable name derivation (service_configuration.go:246-281) ---------- *)
-Definition flagprefix : str := Eval compute in str_of "uniqueprefixforprivateflagbindingkeys123".
+Definition with_lf (f : facts) (l : lfacts) : facts := mkFacts l (kf f) (nf f) (vf f).
+(* the code before the three repairs *)
+Definition steps_link_before_file : list step :=
+  [StDecodeDefaults; StMergeDefaults; StDotEnv; StEnvOptions; StLink; StMergeFile; StUnmarshal; StValidate].
+Definition before_repair1 : facts := with_lf expected (mkLF steps_link_before_file false true true false true true true).
+Definition before_repair2 : facts := with_lf expected (mkLF expected_steps false true true true true true true).
+Definition before_repair3 : facts :=
+  mkFacts expected_lf
+          (mkKF [(DOT, USC)] true true true true (Some USC) true (k_flagprefix expected_kf) DOT (USC, DOT) USC (DOT, USC) true false)
+          (mkNF true true USC true USC false) expected_vf.
+Definition original : facts :=
+  mkFacts (mkLF steps_link_before_file false true true true true true true) (kf before_repair3) (nf before_repair3) expected_vf.
+
+(* position of a step in LoadFromEnvironment *)
+Fixpoint step_index (x : step) (l : list step) : option nat :=
+  match l with
+  | [] => None
+  | y :: r => if step_eqb x y then Some O else match step_index x r with Some n => Some (S n) | None => None end
+  end.
+Definition step_before (a b : step) (l : list step) : bool :=
+  match step_index a l, step_index b l with
+  | Some i, Some j => Nat.ltb i j
+  | _, _ => false
+  end.
+(* linkFlagKeysToStructureKeys sees the file's values *)
+Definition after_file (f : facts) : bool := step_before StMergeFile StLink (l_steps (lf f)).
+(* MergeInConfig(file) comes after MergeConfigMap(defaults): the file's entries win in the config map *)
+Definition defaults_first (f : facts) : bool := step_before StMergeDefaults StMergeFile (l_steps (lf f)).
+(* everything else the order must guarantee: the options are set before anything is looked up, the structure is filled
+   after the flags are linked and validated after it is filled *)
+Definition steps_sane (f : facts) : bool :=
+  let l := l_steps (lf f) in
+  step_before StDecodeDefaults StMergeDefaults l && step_before StEnvOptions StLink l && step_before StMergeDefaults StLink l && step_before StLink StUnmarshal l
+  && step_before StMergeFile StUnmarshal l && step_before StMergeDefaults StUnmarshal l && step_before StUnmarshal StValidate l.
+
+(* ---------- key / environment-variable name derivation (service_configuration.go: generateEnvVarConfigKeys,
+   generateEnvVarConfigKey, cleanseEnvVar, isFlagKey, setEnvOptions) — every choice comes from the facts ---------- *)
+Definition lw (b : bool) (s : str) : str := if b then lower s else s.
+Definition repl1 (p : Z * Z) (s : str) : str := repl (fst p) (snd p) s.
+(* strings.NewReplacer(old1, new1, old2, new2, …) on single bytes: the first matching pair decides *)
+Definition apply_pairs (ps : list (Z * Z)) (c : Z) : Z :=
+  match find (fun p => c =? fst p) ps with Some p => snd p | None => c end.
+Definition replace_pairs (ps : list (Z * Z)) (s : str) : str := map (apply_pairs ps) s.
+
+Definition flagprefix (f : facts) : str := k_flagprefix (kf f).
 
 (* generateEnvVarConfigKeys: the "short" name — prefix (and one separator) stripped when present *)
-Definition short_of (envVar prefix : str) : str :=
-  let l := lower envVar in
-  let p := lower prefix in
-  if has_prefix l p then trim_prefix (trim_prefix l p) [USC] else l.
+Definition short_of (f : facts) (envVar prefix : str) : str :=
+  let k := kf f in
+  if has_prefix (lw (k_cmp_envvar_lowered k) envVar) (lw (k_cmp_prefix_lowered k) prefix)
+  then let t := trim_prefix (lw (k_trim_envvar_lowered k) envVar) (lw (k_trim_prefix_lowered k) prefix) in
+       match k_trim_sep k with Some c => trim_prefix t [c] | None => t end
+  else lw (k_else_lowered k) envVar.
 (* generateEnvVarConfigKey *)
-Definition flagkey_of_short (short : str) : str := flagprefix ++ [DOT] ++ repl USC DOT short.
+Definition flagkey_of_short (f : facts) (short : str) : str :=
+  flagprefix f ++ [k_key_sep (kf f)] ++ repl1 (k_key_repl (kf f)) short.
 (* cleanseEnvVar *)
-Definition cleanse (vr : variant) (prefix short : str) : str :=
+Definition cleanse (f : facts) (prefix short : str) : str :=
+  let k := kf f in
+  let up := fun s => if k_cl_upper k then upper s else s in
   match prefix with
-  | [] => if v_empty_sep vr then upper (repl DOT USC ([USC] ++ short)) else upper (repl DOT USC short)
-  | _ => upper (repl DOT USC (prefix ++ [USC] ++ short))
+  | [] => if k_cl_empty_prefix_bare k then up (repl1 (k_cl_repl k) short)
+          else up (repl1 (k_cl_repl k) ([k_cl_sep k] ++ short))
+  | _ => up (repl1 (k_cl_repl k) (prefix ++ [k_cl_sep k] ++ short))
   end.
-(* the private flag key linkFlagKeysToStructureKeys derives for a key of the structure (:296) *)
-Definition flagkey (vr : variant) (prefix key : str) : str :=
-  if v_strip vr then flagkey_of_short (short_of key prefix) else flagkey_of_short key.
-Definition is_flagkey (k : str) : bool := has_prefix k flagprefix.
+(* the private flag key linkFlagKeysToStructureKeys derives for a key of the structure *)
+Definition flagkey (f : facts) (prefix key : str) : str :=
+  if l_link_strips_prefix (lf f) then flagkey_of_short f (short_of f key prefix) else flagkey_of_short f key.
+Definition is_flagkey (f : facts) (k : str) : bool := has_prefix k (flagprefix f).
 
-(* viper.mergeWithEnvPrefix followed by getEnv's key replacer ("." -> "_"): the variable AutomaticEnv consults for a key *)
+(* viper.mergeWithEnvPrefix followed by getEnv's key replacer: the variable AutomaticEnv consults for a key *)
 Definition merge_prefix (prefix k : str) : str :=
   match prefix with [] => upper k | _ => upper (prefix ++ [USC] ++ k) end.
-Definition autoenv (prefix k : str) : str := repl DOT USC (merge_prefix prefix k).
+Definition autoenv (f : facts) (prefix k : str) : str := replace_pairs (k_env_replacer (kf f)) (merge_prefix prefix k).
 
 (* proper, non-empty ancestors of a dotted key: "a.b.c" -> ["a"; "a.b"] *)
 Fixpoint prefixes_aux (acc : str) (segs : list str) : list str :=
@@ -207,23 +262,26 @@ Record world := mkW {
   w_file : kmap val;          (* configuration file: dotted key as spelled in the file -> JSON value *)
 }.
 
-(* os.LookupEnv + AllowEmptyEnv(false) : viper.getEnv *)
-Definition getenv (w : world) (name : str) : option val :=
+(* os.LookupEnv + AllowEmptyEnv(<fact>) : viper.getEnv *)
+Definition getenv (f : facts) (w : world) (name : str) : option val :=
   match lookup name (w_environ w) with
-  | Some (VStr []) => None
+  | Some (VStr []) => if l_allow_empty_env (lf f) then Some (VStr []) else None
   | o => o
   end.
+(* the lookup AutomaticEnv adds to viper.find for a key (nothing when AutomaticEnv() is not called) *)
+Definition autoget (f : facts) (w : world) (k : str) : option val :=
+  if l_automatic_env (lf f) then getenv f w (autoenv f (w_prefix w) k) else None.
 
 (* BindFlagToEnv: viper.pflags[shortKey] = flag ; viper.env[shortKey] = [cleansedEnvVar] *)
-Definition bound_flags (w : world) : kmap (ty * aval * option aval) :=
-  map (fun f => match f with (ev, t, d, s) => (flagkey_of_short (short_of ev (w_prefix w)), (t, d, s)) end) (w_flags w).
-Definition bound_envs (vr : variant) (w : world) : kmap str :=
-  map (fun f => match f with (ev, _, _, _) =>
-         let sh := short_of ev (w_prefix w) in (flagkey_of_short sh, cleanse vr (w_prefix w) sh) end) (w_flags w).
+Definition bound_flags (f : facts) (w : world) : kmap (ty * aval * option aval) :=
+  map (fun fl => match fl with (ev, t, d, s) => (flagkey_of_short f (short_of f ev (w_prefix w)), (t, d, s)) end) (w_flags w).
+Definition bound_envs (f : facts) (w : world) : kmap str :=
+  map (fun fl => match fl with (ev, _, _, _) =>
+         let sh := short_of f ev (w_prefix w) in (flagkey_of_short f sh, cleanse f (w_prefix w) sh) end) (w_flags w).
 
 (* viper.isPathShadowedInAutoEnv / isPathShadowedInFlatMap *)
-Definition env_shadow (w : world) (k : str) : bool :=
-  existsb (fun p => match getenv w (autoenv (w_prefix w) p) with Some _ => true | None => false end) (ancestors k).
+Definition env_shadow (f : facts) (w : world) (k : str) : bool :=
+  existsb (fun p => match autoget f w p with Some _ => true | None => false end) (ancestors k).
 Definition flat_shadow (k : str) (keys : list str) : bool := existsb (fun p => mem p keys) (ancestors k).
 
 (* the mutable part of the viper session that linkFlagKeysToStructureKeys writes *)
@@ -233,17 +291,17 @@ Definition set_dfl (k : str) (v : val) (s : session) : session := mkS (ov s) ((k
 
 (* viper.find for one of the private flag keys (nothing but flags and bound variables live there).
    flagDefault=false is IsSet, true is Get. *)
-Definition find_flag (w : world) (bf : kmap (ty * aval * option aval)) (be : kmap str) (fk : str) (flagDefault : bool) : option val :=
+Definition find_flag (f : facts) (w : world) (bf : kmap (ty * aval * option aval)) (be : kmap str) (fk : str) (flagDefault : bool) : option val :=
   let fl := lookup fk bf in
   match fl with
   | Some (t, _, Some a) => Some (rep_flag t a)                         (* flag.HasChanged() *)
   | _ =>
     if flat_shadow fk (map fst bf) then None else
-    match getenv w (autoenv (w_prefix w) fk) with
+    match autoget f w fk with
     | Some v => Some v
     | None =>
-      if env_shadow w fk then None else
-      match (match lookup fk be with Some n => getenv w n | None => None end) with
+      if env_shadow f w fk then None else
+      match (match lookup fk be with Some n => getenv f w n | None => None end) with
       | Some v => Some v
       | None =>
         if flat_shadow fk (map fst be) then None else
@@ -253,14 +311,14 @@ Definition find_flag (w : world) (bf : kmap (ty * aval * option aval)) (be : kma
   end.
 
 (* viper.find for a key of the structure: override, automatic env, (shadowing), config map, defaults *)
-Definition find_key (w : world) (cfg : kmap val) (s : session) (k : str) : option val :=
+Definition find_key (f : facts) (w : world) (cfg : kmap val) (s : session) (k : str) : option val :=
   match lookup k (ov s) with
   | Some v => Some v
   | None =>
-    match getenv w (autoenv (w_prefix w) k) with
+    match autoget f w k with
     | Some v => Some v
     | None =>
-      if env_shadow w k then None else
+      if env_shadow f w k then None else
       match lookup k cfg with
       | Some v => Some v
       | None => lookup k (dfl s)
@@ -269,25 +327,25 @@ Definition find_key (w : world) (cfg : kmap val) (s : session) (k : str) : optio
   end.
 
 (* one iteration of the loop of linkFlagKeysToStructureKeys (:290-310) for a non-flag key *)
-Definition link_step (vr : variant) (w : world) (bf : kmap (ty * aval * option aval)) (be : kmap str) (cfg : kmap val) (s : session) (k : str) : session :=
-  let fk := flagkey vr (w_prefix w) k in
-  match find_flag w bf be fk false with
+Definition link_step (f : facts) (w : world) (bf : kmap (ty * aval * option aval)) (be : kmap str) (cfg : kmap val) (s : session) (k : str) : session :=
+  let fk := flagkey f (w_prefix w) k in
+  match find_flag f w bf be fk false with
   | Some v => set_ov k v s
   | None =>
-    match find_flag w bf be fk true with
+    match find_flag f w bf be fk true with
     | Some v =>
-        if is_empty v then s else
+        if l_guard_default_nonempty (lf f) && is_empty v then s else
         let s1 := set_dfl k v s in
-        if is_empty_o (find_key w cfg s1 k) then set_ov k v s1 else s1
+        if (if l_guard_current_empty (lf f) then is_empty_o (find_key f w cfg s1 k) else true) then set_ov k v s1 else s1
     | None => s
     end
   end.
 
 (* [bf], [be]: viper.pflags and viper.env as BindFlagToEnv left them (computed once) *)
-Definition link (vr : variant) (w : world) (cfg : kmap val) (keys : list str) : session :=
-  let bf := bound_flags w in
-  let be := bound_envs vr w in
-  fold_left (link_step vr w bf be cfg) keys (mkS [] []).
+Definition link (f : facts) (w : world) (cfg : kmap val) (keys : list str) : session :=
+  let bf := bound_flags f w in
+  let be := bound_envs f w in
+  fold_left (link_step f w bf be cfg) keys (mkS [] []).
 
 (* the config map: MergeConfigMap(defaults) then MergeInConfig(file) — file entries win *)
 Definition defaults_cfg (sc : schema) : kmap val := map (fun l => (fst l, rep_default (snd (snd l)))) (leaves [] sc).
@@ -299,17 +357,19 @@ Fixpoint dedup (seen : list str) (l : list str) : list str :=
   end.
 
 (* LoadFromEnvironment up to Unmarshal: the final session and config map. *)
-Definition prepared (vr : variant) (w : world) (sc : schema) : kmap val * session :=
+Definition link_keys (f : facts) (l : list str) : list str :=
+  if l_link_skips_flagkeys (lf f) then filter (fun k => negb (is_flagkey f k)) l else l.
+Definition prepared (f : facts) (w : world) (sc : schema) : kmap val * session :=
   let dc := defaults_cfg sc in
-  let full := file_cfg w ++ dc in
+  let full := if defaults_first f then file_cfg w ++ dc else dc ++ file_cfg w in
   let skeys := map fst (leaves [] sc) in
-  if v_after_file vr
-  then (full, link vr w full (filter (fun k => negb (is_flagkey k)) (dedup [] (skeys ++ map fst (file_cfg w)))))
-  else (full, link vr w dc (filter (fun k => negb (is_flagkey k)) skeys)).
+  if after_file f
+  then (full, link f w full (link_keys f (dedup [] (skeys ++ map fst (file_cfg w)))))
+  else (full, link f w dc (link_keys f skeys)).
 
 (* viper.Unmarshal: every leaf gets Get(key), weakly decoded; nil leaves the zero value *)
-Definition final_val (vr : variant) (w : world) (sc : schema) (k : str) : option val :=
-  let '(cfg, s) := prepared vr w sc in find_key w cfg s k.
+Definition final_val (f : facts) (w : world) (sc : schema) (k : str) : option val :=
+  let '(cfg, s) := prepared f w sc in find_key f w cfg s k.
 
 Definition decode_leaf (t : ty) (o : option val) : option aval :=
   match o with None => Some (zero_of t) | Some v => decode t v end.
@@ -321,9 +381,9 @@ Fixpoint sequence {A} (l : list (option A)) : option (list A) :=
   | Some x :: r => match sequence r with Some xs => Some (x :: xs) | None => None end
   end.
 
-Definition unmarshal (vr : variant) (w : world) (sc : schema) : option (list aval) :=
-  let '(cfg, s) := prepared vr w sc in
-  sequence (map (fun l => decode_leaf (fst (snd l)) (find_key w cfg s (fst l))) (leaves [] sc)).
+Definition unmarshal (f : facts) (w : world) (sc : schema) : option (list aval) :=
+  let '(cfg, s) := prepared f w sc in
+  sequence (map (fun l => decode_leaf (fst (snd l)) (find_key f w cfg s (fst l))) (leaves [] sc)).
 
 (* ---------- validation (validation.go, error.go) ---------- *)
 (* smallest tag (bytewise) among the failing required fields: newValidationErrorFromOzzoValidationErrors keeps params[0] *)
@@ -339,8 +399,21 @@ Definition own_failures (vals : kmap aval) (pre : str) (fs : list (str * str * s
          match lookup (sub pre tag) vals with Some a => if is_zero a then [tag] else [] | None => [] end
      | _ => [] end) fs.
 
+Fixpoint max_str (best : option str) (l : list str) : option str :=
+  match l with
+  | [] => best
+  | x :: r => max_str (match best with None => Some x | Some b => if str_ltb b x then Some x else Some b end) r
+  end.
+
+(* validationError.RecordField(field.Name, &tag, nil) on the error of an embedded structure *)
+Definition rec_field (f : facts) (g tag : str) (e : list str * list str) : list str * list str :=
+  let v := vf f in
+  let name := if v_ms_upper v then upper tag else tag in
+  ((if v_tree_prepend v then g :: fst e else fst e ++ [g]),
+   (if v_ms_prepend v then name :: snd e else snd e ++ [name])).
+
 (* result: (tree of names, mapstructure tree) of the validationError *)
-Fixpoint validate (vals : kmap aval) (pre : str) (s : schema) : option (list str * list str) :=
+Fixpoint validate (f : facts) (vals : kmap aval) (pre : str) (s : schema) : option (list str * list str) :=
   match s with
   | Leaf _ _ _ => None
   | Node m fs =>
@@ -350,16 +423,18 @@ Fixpoint validate (vals : kmap aval) (pre : str) (s : schema) : option (list str
            | [] => None
            | (g, tag, c) :: r =>
                match c with
-               | Leaf _ _ _ => go r
-               | Node VNone _ => go r
+               | Leaf _ _ _ => go r                                   (* f.Kind() != reflect.Struct *)
+               | Node VNone _ =>                                      (* no Validate method: if !ok { <fact> } *)
+                   match v_skip_no_validator (vf f) with SkipContinue => go r | SkipReturnNil => None end
                | Node _ _ =>
-                   match validate vals (sub pre tag) c with
-                   | Some (tr, ms) => Some (g :: tr, upper tag :: ms)      (* RecordField(field.Name, &tag, nil) *)
+                   match validate f vals (sub pre tag) c with
+                   | Some e => if v_first_error_returned (vf f) then Some (rec_field f g tag e) else go r
                    | None => go r
                    end
                end
            end) fs in
-      let own := match min_str None (own_failures vals pre fs) with Some t => Some ([t], []) | None => None end in
+      let pick := if v_ozzo_sorted_first (vf f) then min_str else max_str in
+      let own := match pick None (own_failures vals pre fs) with Some t => Some ([t], []) | None => None end in
       match m with
       | VNone => None
       | VOwnOnly => own
@@ -369,11 +444,12 @@ Fixpoint validate (vals : kmap aval) (pre : str) (s : schema) : option (list str
   end.
 
 (* GetMapStructurePath with the prefix recorded by WrapValidationError(field.ToOptionalString(envVarPrefix), …) *)
-Definition ms_path (prefix : str) (ms : list str) : str :=
+Definition ms_path (f : facts) (prefix : str) (ms : list str) : str :=
+  let v := vf f in
   match ms with
   | [] => []
-  | _ => let p := repl DASH USC (join [USC] ms) in
-         if blank prefix then p else upper prefix ++ [USC] ++ p
+  | _ => let p := repl1 (v_ms_repl v) (join [v_ms_join v] ms) in
+         if blank prefix then p else (if v_ms_prefix_upper v then upper prefix else prefix) ++ [USC] ++ p
   end.
 
 Inductive outcome :=
@@ -381,19 +457,19 @@ Inductive outcome :=
 | Invalid (vs : list aval) (tree : list str) (mspath : str)
 | MarshalErr.
 
-Definition load (vr : variant) (w : world) (sc : schema) : outcome :=
-  match unmarshal vr w sc with
+Definition load (f : facts) (w : world) (sc : schema) : outcome :=
+  match unmarshal f w sc with
   | None => MarshalErr
   | Some vs =>
       let vals := combine (map fst (leaves [] sc)) vs in
-      match validate vals [] sc with
+      match validate f vals [] sc with
       | None => Loaded vs
-      | Some (tr, ms) => Invalid vs tr (ms_path (w_prefix w) ms)
+      | Some (tr, ms) => Invalid vs tr (ms_path f (w_prefix w) ms)
       end
   end.
 
 (* ---------- DetermineConfigurationEnvironmentVariables ---------- *)
-Fixpoint flat (s : schema) : list str :=        (* keys of flattenDefaultsMap(decode(structure)) *)
+Fixpoint flat (f : facts) (s : schema) : list str :=        (* keys of flattenDefaultsMap(decode(structure)) *)
   match s with
   | Leaf _ _ _ => []
   | Node _ fs =>
@@ -402,19 +478,21 @@ Fixpoint flat (s : schema) : list str :=        (* keys of flattenDefaultsMap(de
          | [] => []
          | (_, tag, c) :: r =>
              (match c with
-              | Leaf _ _ _ => [upper tag]
-              | Node _ _ => map (fun k => upper (tag ++ [USC] ++ k)) (flat c)
+              | Leaf _ _ _ => [if n_flat_upper_leaf (nf f) then upper tag else tag]
+              | Node _ _ => map (fun k => let j := tag ++ [n_flat_sep (nf f)] ++ k in
+                                          if n_flat_upper_nested (nf f) then upper j else j) (flat f c)
               end) ++ go r
          end) fs
   end.
-Definition reported (vr : variant) (prefix : str) (s : schema) : list str :=
+Definition reported (f : facts) (prefix : str) (s : schema) : list str :=
+  let n := nf f in
   map (fun k => match prefix with
-                | [] => if v_empty_sep vr then [USC] ++ k else k
-                | _ => upper prefix ++ [USC] ++ k
-                end) (flat s).
+                | [] => if n_det_empty_prefix_bare n then k else [n_det_sep n] ++ k
+                | _ => (if n_det_prefix_upper n then upper prefix else prefix) ++ [n_det_sep n] ++ k
+                end) (flat f s).
 (* the names loading consults for the fields of the structure *)
-Definition honoured (prefix : str) (s : schema) : list str :=
-  map (fun l => autoenv prefix (fst l)) (leaves [] s).
+Definition honoured (f : facts) (prefix : str) (s : schema) : list str :=
+  map (fun l => autoenv f prefix (fst l)) (leaves [] s).
 
 (* ---------- correspondence ---------- *)
 Definition aval_eqb (a b : aval) : bool :=
@@ -448,8 +526,8 @@ Record case := mkCase {
 }.
 
 Definition check_case (c : case) : bool :=
-  outcome_eqb (load fixed (c_world c) (c_schema c)) (c_obs c)
+  outcome_eqb (load gen_facts (c_world c) (c_schema c)) (c_obs c)
   && match c_names c with
-     | Some ns => same_set (reported fixed (w_prefix (c_world c)) (c_schema c)) ns
+     | Some ns => same_set (reported gen_facts (w_prefix (c_world c)) (c_schema c)) ns
      | None => true
      end.
